@@ -148,12 +148,36 @@ impl<'a> G<'a> {
             6 | 7 => self.rng.pick(&self.former).clone(),
             _ => self.rng.pick(&self.users).clone(),
         };
+        // sometimes a sender the chain's Api cannot validate (plain name, foreign prefix, upper-cased admin, empty),
+        // preferably against a contract without admin (never had one, or cleared)
+        let mut c = c;
+        let mut admin = admin;
+        let mut invalid_actor = false;
+        if self.rng.chance(1, 6) {
+            if self.rng.chance(1, 2) {
+                let no_admin: Vec<String> = reg_of(&self.live).into_iter().filter(|x| x.1.admin.is_none()).map(|x| x.0).collect();
+                if !no_admin.is_empty() {
+                    c = self.rng.pick(&no_admin).clone();
+                    admin = None;
+                }
+            }
+            let real = admin.clone().unwrap_or_else(|| self.users[0].clone());
+            actor = self.rng.pick(&invalid_senders(&real)).clone();
+            invalid_actor = true;
+        }
+        let _ = &admin;
         let b = self.block.clone();
         self.live.push(Hop::Info { c: c.clone() });
-        let m = self.admin_msg(&c);
+        let mut m = self.admin_msg(&c);
+        if invalid_actor && self.rng.chance(1, 2) {
+            // a migration that would succeed if only the sender were accepted
+            let cur = self.cdata(&c).map(|d| d.code_id).unwrap_or(1);
+            let new_code = *self.rng.pick(&[cur, 1, 1]);
+            m = Msg::Migrate { c: c.clone(), new_code, p: leaf(&mut self.nodes, vec![Action::Q(QAct::Dump)]) };
+        }
         let is_contract = self.targets.contains(&actor);
-        let via_sub = is_contract || self.rng.chance(1, 6);
-        let shape = self.rng.below(12);
+        let via_sub = !invalid_actor && (is_contract || self.rng.chance(1, 6));
+        let shape = if invalid_actor { 11 } else { self.rng.below(12) };
         if shape == 0 {
             // sudo: the body of the sudo entry point of a contract returns the admin operation
             let d = self.rng.pick(&self.dispatchers).clone();
@@ -331,6 +355,38 @@ fn fixed() -> Vec<History> {
             Hop::Info { c: d.clone() },
         ],
     });
+    // senders the chain's Api cannot validate, against a contract that never had an admin, a contract whose admin
+    // was cleared, and a contract with a normal admin: always refused, code id and admin unchanged
+    let c0 = classic_address(1, 0);
+    let c1 = classic_address(1, 1);
+    let c2 = classic_address(1, 2);
+    let mut hops = vec![
+        Hop::Store { creator: None, src: full_src(301) },
+        Hop::Store { creator: None, src: full_src(302) },
+        top(inst(&alice, 1, leaf(&mut n, vec![]), "never had an admin", None)),
+        top(inst(&alice, 1, leaf(&mut n, vec![]), "admin will be cleared", Some(alice.clone()))),
+        top(inst(&alice, 1, leaf(&mut n, vec![]), "normal admin", Some(alice.clone()))),
+        top(ex("mallory", Msg::Migrate { c: c0.clone(), new_code: 2, p: leaf(&mut n, vec![]) })),
+        Hop::Info { c: c0.clone() },
+        top(ex(&alice, Msg::ClearAdmin { c: c1.clone() })),
+        top(ex("mallory", Msg::Migrate { c: c1.clone(), new_code: 2, p: leaf(&mut n, vec![]) })),
+        Hop::Info { c: c1.clone() },
+    ];
+    for bad in invalid_senders(&alice) {
+        for tgt in [&c0, &c1, &c2] {
+            hops.push(top(ex(&bad, Msg::Migrate { c: tgt.clone(), new_code: 2, p: leaf(&mut n, vec![]) })));
+            hops.push(top(TopOp::HelperMigrate { sender: bad.clone(), c: tgt.clone(), new_code: 1, p: leaf(&mut n, vec![]) }));
+            hops.push(top(ex(&bad, Msg::UpdateAdmin { c: tgt.clone(), a: bob.clone() })));
+            hops.push(top(ex(&bad, Msg::ClearAdmin { c: tgt.clone() })));
+        }
+    }
+    hops.push(Hop::Info { c: c0.clone() });
+    hops.push(Hop::Info { c: c1.clone() });
+    hops.push(Hop::Info { c: c2.clone() });
+    // the real admin still works
+    hops.push(top(ex(&alice, Msg::Migrate { c: c2.clone(), new_code: 2, p: leaf(&mut n, vec![]) })));
+    hops.push(Hop::Info { c: c2.clone() });
+    out.push(History { users: users.clone(), hops });
     // a contract that is NOT its own admin returns UpdateAdmin(self -> self-chosen) / ClearAdmin / Migrate from its
     // migrate entry point: the operation is the CONTRACT's, not the migrating admin's: refused; with reply_on
     // never / success the migration fails, with error / always it is caught and the admin is unchanged
@@ -410,7 +466,7 @@ fn main() {
         &|rng, thorough| G::new(rng).run(thorough),
         40,
         400,
-        "histories = code table (auto, without migrate entry point, non-contiguous explicit id, auto after the gap, duplicate), six contracts (admin = creator; none; a user other than the creator; a dispatcher contract that is its own creator's; another contract; the contract itself), then 6-20 attempts: target x actor (current admin as reported by the registry, creator, former admins, strangers, a contract acting through a sub-message under every reply mode, dispatched from execute, sudo, instantiate, a reply program, or the MIGRATE entry point of the new code) x operation (Migrate to the same / another / duplicate / entry-point-less / unknown / zero / non-contiguous code with a clean, failing, malformed or sub-message-dispatching migrate program; UpdateAdmin to users, contracts, itself, an invalid string; ClearAdmin), each framed by ContractInfo / contract_data / dump_wasm_raw observations and followed by execute / sudo calls on the target. 4 fixed histories first (F2 witness + full life cycle; contracts as admins; a contract NOT its own admin returning admin operations from migrate / sudo / instantiate / reply under every reply mode; a contract that IS its own admin doing the same). non-trivial = at least one admin operation accepted and at least one refused",
+        "histories = code table (auto, without migrate entry point, non-contiguous explicit id, auto after the gap, duplicate), six contracts (admin = creator; none; a user other than the creator; a dispatcher contract that is its own creator's; another contract; the contract itself), then 6-20 attempts: target x actor (current admin as reported by the registry, creator, former admins, strangers, senders the chain's Api cannot validate, a contract acting through a sub-message under every reply mode, dispatched from execute, sudo, instantiate, a reply program, or the MIGRATE entry point of the new code) x operation (Migrate to the same / another / duplicate / entry-point-less / unknown / zero / non-contiguous code with a clean, failing, malformed or sub-message-dispatching migrate program; UpdateAdmin to users, contracts, itself, an invalid string; ClearAdmin), each framed by ContractInfo / contract_data / dump_wasm_raw observations and followed by execute / sudo calls on the target. 5 fixed histories first (senders the Api cannot validate — plain name, foreign prefix, upper-cased admin, empty string — against contracts with no / cleared / normal admin; F2 witness + full life cycle; contracts as admins; a contract NOT its own admin returning admin operations from migrate / sudo / instantiate / reply under every reply mode; a contract that IS its own admin doing the same). non-trivial = at least one admin operation accepted and at least one refused",
         &|h, obs| {
             let mut acc = false;
             let mut refu = false;
